@@ -20,7 +20,12 @@ class FakePath:
     def __init__(self, fs):
         self.fs = fs
 
+    def _abs(self, p):
+        # a relative path is looked up from the process's working directory
+        return p if p.startswith('/') else posixpath.normpath(posixpath.join(self.fs.cwd, p))
+
     def exists(self, p):
+        p = self._abs(p)
         return p in self.fs.files or p in self.fs.dirs or p in self.fs.sockets
 
     def expanduser(self, p):
@@ -35,10 +40,11 @@ class FakePath:
         return out
 
     def isfile(self, p):
+        p = self._abs(p)
         return p in self.fs.files or p in self.fs.sockets
 
     def isdir(self, p):
-        return p in self.fs.dirs
+        return self._abs(p) in self.fs.dirs
 
     def getmtime(self, p):
         if not self.exists(p):
@@ -55,7 +61,7 @@ class FakePath:
         return 4096
 
     def abspath(self, p):
-        return posixpath.normpath(p if p.startswith('/') else posixpath.join(HOME, p))
+        return posixpath.normpath(self._abs(p))
 
     realpath = abspath
     normpath = staticmethod(posixpath.normpath)
@@ -103,6 +109,7 @@ class FakeFs:
         self.sockets = set(sc.get('sockets', []))
         self.env = dict(sc.get('env', {}))
         self.mtimes = dict(sc.get('mtimes', {}))
+        self.cwd = sc.get('cwd', '/work')
         self.opened = []
 
     def open(self, path, mode='r', *a, **k):
@@ -400,6 +407,7 @@ def generate(rng, seed, tier='quick'):
         if rng.random() < 0.5:
             sockets.add(s)
     bad = rng.random() < 0.2
+    cwd = rng.choice(['/work', '/work', HOME, HOME + '/.ndn', '/'])
 
     def transport():
         return rng.choice(TRANSPORTS_BAD if (bad and rng.random() < 0.7) else TRANSPORTS_OK)
@@ -416,9 +424,12 @@ def generate(rng, seed, tier='quick'):
             return f'{scheme}:{loc}'                        # exists, absolute
         if cls == 2:
             rel = f'{kind}-store{rng.randint(0, 3)}'
-            if conf_dir is not None:
-                dirs.add(posixpath.join(conf_dir, rel))
-            return f'{scheme}:{rel}'                        # relative to the config file
+            where = rng.choice(['conf', 'conf', 'cwd', 'both', 'neither'])
+            if conf_dir is not None and where in ('conf', 'both'):
+                dirs.add(posixpath.join(conf_dir, rel))     # relative to the config file
+            if where in ('cwd', 'both'):
+                dirs.add(posixpath.join(cwd, rel))          # exists as given (seen from the working directory)
+            return f'{scheme}:{rel}'
         return f'{scheme}:/nonexistent/{kind}{rng.randint(0, 3)}'     # missing
 
     conf_dir = None
@@ -455,7 +466,7 @@ def generate(rng, seed, tier='quick'):
         env['NDN_LOG'] = '*=DEBUG'
     sc = {'engine': 'clientconf', 'property': 'C20', 'seed': seed, 'config': {'turn_cost_us': 0, 'wall_gran_us': 1000},
           'frontend': rng.choice(['v2', 'v2', 'v1']), 'files': files, 'dirs': sorted(dirs), 'sockets': sorted(sockets),
-          'env': env, 'ops': [{'k': k} for k in sorted(files)] or [{'k': 'none'}]}
+          'env': env, 'cwd': cwd, 'ops': [{'k': k} for k in sorted(files)] or [{'k': 'none'}]}
     if rng.random() < 0.25:
         # the same paths held other content (same modification second) when the process looked first
         pf = {}
